@@ -203,6 +203,7 @@ def line_number_parser(ck, F):
             ok = ("is_ascii_digit" in txt or "is_ascii_whitespace" in txt or "parse(" in txt or "parse" in txt and "Result" in txt or
                   ("count" in cn and "take_while" in cn) or           # `digit_count == 0`: no leading digit run
                   (cn[:1] == ["find"]) or
+                  (cn and set(cn) <= {"is_some", "is_none"}) or       # "have digits been seen yet": presence, not value
                   (names and set(names.values()) <= {"None", "Some", "Ok", "Err", "Continue", "Break"}))
             if not ok:
                 bad.append(txt[:100])
@@ -395,9 +396,9 @@ def list_complete(ck, F):
 
 def list_shape(ck, F, lb):
     """line number, blank, tokens joined by single blanks, newline."""
-    from lib import with_closures
+    from lib import with_helpers
     ok_join = False
-    for bd in with_closures(F, lb):
+    for bd in with_helpers(F, lb):
         for c in bd.calls():
             if c.callee.endswith("::join") and any(expr_const_str(bd.expr(a)) == " " for a in c.args):
                 ok_join = True
